@@ -30,7 +30,7 @@ CLAIMS = {
          "Trusted: prost / serde_json / base64 encoders, Display of u64 (A-LIB, A-STR: uninterpreted injective functions); Bytes and SystemTime stand-ins; u32 counter wrap (A-ARITH)."),
  "C10": ("proof of the map operations (scoped)",
          "Proved: State::create_topic / State::create_subscription succeed exactly when the name is absent, then insert exactly that name with a fresh increasing internal id, and leave the state unchanged on ALREADY_EXISTS; the same-project rule is decided before any state access; delegate delete is map.remove; effective ack deadline = max(seconds, 10) for all i32; TopicActor::attach_subscription never fails (the create path registers the name before the attach and has no rollback, so 'a failed create leaves nothing behind' rests on this); read-back (bundle B6): parse_push_config stores the request's endpoint (trimmed), attributes and oidc token, map_to_subscription_resource reports the stored name, topic, whole seconds of the ack deadline and push configuration, and the two compose to the identity (lemma_push_config_roundtrip, lemma_ack_deadline_roundtrip: reported deadline = max(seconds, 10) for every i32).",
-         "The lookup helpers of the handlers (get_subscription, get_topic_internal, subscription_not_found, topic_not_found, conflict) are under contract in B6: an absent name is answered with NOT_FOUND. NOT covered: linearizability across threads (parking_lot::RwLock trusted; that each wrapper holds the guard around exactly one State call is structural), 'later requests observe it' through the actors, the status mapping inside the remaining async handlers (get / delete / list / pull / streaming; gRPC scenario `namespace`). The Publish, CreateTopic, CreateSubscription, Acknowledge, ModifyAckDeadline, GetSubscription, DeleteSubscription and DeleteTopic handlers are under contract as whole async functions (B5, B2, B6): INVALID_ARGUMENT for a name that does not parse, NOT_FOUND for an absent name, OK only for an existing one; GetSubscription answers with the resource of the subscription the name denotes (its name and the configuration it stores). The status mapping of the two create handlers is under contract (B6, match arms of their map_err closures lifted as regions): CreateTopic / CreateSubscription answer ALREADY_EXISTS for an existing name, CreateSubscription NOT_FOUND for an absent topic and INVALID_ARGUMENT for a topic in another project."),
+         "The lookup helpers of the handlers (get_subscription, get_topic_internal, subscription_not_found, topic_not_found, conflict) are under contract in B6: an absent name is answered with NOT_FOUND. NOT covered: linearizability across threads (parking_lot::RwLock trusted; that each wrapper holds the guard around exactly one State call is structural), 'later requests observe it' through the actors, the status mapping inside the remaining async handlers (get / delete / list / pull / streaming; gRPC scenario `namespace`). The Publish, CreateTopic, CreateSubscription, GetTopic, Acknowledge, ModifyAckDeadline, GetSubscription, DeleteSubscription and DeleteTopic handlers are under contract as whole async functions (B5, B2, B6): INVALID_ARGUMENT for a name that does not parse, NOT_FOUND for an absent name, OK only for an existing one; GetSubscription answers with the resource of the subscription the name denotes (its name and the configuration it stores). The status mapping of the two create handlers is under contract (B6, match arms of their map_err closures lifted as regions): CreateTopic / CreateSubscription answer ALREADY_EXISTS for an existing name, CreateSubscription NOT_FOUND for an absent topic and INVALID_ARGUMENT for a topic in another project."),
  "C11": ("proof of the set algebra (scoped)",
          "Proved: topic actor remove_subscription removes exactly the named entry, delete clears the set, sets deleted and is idempotent, attach never overwrites; subscription delete empties backlog and leases and sets deleted, after which post/pull/ack/modify are no-ops.",
          "The DeleteSubscription / DeleteTopic handlers (async, whole bodies, B6) are under contract: OK means the resource the name denotes was asked to delete itself and answered OK. NOT covered: order of effects across the two actors, liveness of the Weak<Topic>, that the Weak<Topic> is dead exactly when the topic is deleted (the mapping itself is under contract in B6: live topic -> its name, dead -> the deleted marker), re-creation not re-attaching (call-graph fact)."),
